@@ -16,6 +16,16 @@ def run(ctx):
     if not r.ok:
         ctx.design_violation("OrderRun", "OrderRun_q.cfg", r)
     jobs = sessions(ctx, cfgs, "C06", lambda k: {"hashseeds": [1, 2]} if k % (6 if ctx.thorough else 12) == 0 else {})
+    # the documented default request: no --chromosome_order on a graph whose components are exactly chr1..chr22, chrX, chrY, chrM
+    # (each a tip - scaffold - tip chain here); the BO ranges must follow that documented order
+    default = [f"chr{i}" for i in range(1, 23)] + ["chrX", "chrY", "chrM"]
+    nodes, links, chroms = [], [], []
+    for k, c in enumerate(default):
+        ids = [f"s{100 + 3 * ((7 * k) % 25) + j}" for j in range(3)]       # ids not in chromosome order
+        nodes += [{"id": ids[j], "sn": c, "so": 2 * j, "ln": 2, "sr": 0} for j in range(3)]
+        links += [{"a": ids[0], "ao": "+", "b": ids[1], "bo": "+"}, {"a": ids[1], "ao": "+", "b": ids[2], "bo": "+"}]
+        chroms.append({"name": c, "bad": False, "elems": [{"k": "b", "ns": [ids[0]]}, {"k": "s", "ns": [ids[1]]}, {"k": "b", "ns": [ids[2]]}]})
+    jobs.append(("default25", {"nodes": nodes, "links": links, "chroms": chroms}, "C06", ctx.seed, {"default_order": True}))
     finish(ctx, jobs, "C06")
     ctx.exhaustive = True
     ctx.assumptions += ["node ids are rGFA-style s<k>; every alternative allele has its own SN so that the reference contig is the plurality name of its component",
